@@ -1,6 +1,7 @@
 package main
 
 import (
+	"time"
 	"fmt"
 	goast "go/ast"
 	goparser "go/parser"
@@ -531,6 +532,87 @@ func init() {
 			if iq != ni.node.End() {
 				return "end-differs-from-documentation:" + tn, fmt.Sprintf("End()=%d documented=%d", ni.node.End(), iq), false
 			}
+		}
+		return "", "", false
+	}
+}
+
+// ---------------------------------------------------------------- C03
+// Every entry point returns normally within a time bound, never panics; failures only through typed errors; the
+// single-node functions return a non-nil node.  Each call runs under a watchdog so that a non-terminating parse is
+// reported instead of hanging the harness.
+func init() {
+	parseOracles["C03"] = func(e *entryPoint, x string) (string, string, bool) {
+		type outcome struct {
+			r parseResult
+		}
+		ch := make(chan outcome, 1)
+		go func() { ch <- outcome{callEntry(e, "t.sql", x)} }()
+		var r parseResult
+		select {
+		case o := <-ch:
+			r = o.r
+		case <-time.After(3 * time.Second):
+			return "timeout", "no result after 3s (the goroutine is abandoned)", false
+		}
+		if r.panicked {
+			return "panic", r.panicVal, false
+		}
+		stats.accepted++
+		if r.err != nil {
+			me, ok := r.err.(memefish.MultiError)
+			if !ok {
+				return "error-not-MultiError", fmt.Sprintf("%T", r.err), false
+			}
+			if len(me) == 0 {
+				return "empty-MultiError", "", false
+			}
+			for _, er := range me {
+				if er == nil {
+					return "nil-element-in-MultiError", "", false
+				}
+			}
+		}
+		if !e.list {
+			if len(r.nodes) != 1 || isNilNode(r.nodes[0]) {
+				return "nil-node", "", false
+			}
+		}
+		// lexer and splitter on the same input
+		var why string
+		done := make(chan string, 1)
+		go func() {
+			w := safely("Lexer/Split", func() {
+				l := &memefish.Lexer{File: &token.File{FilePath: "t.sql", Buffer: x}}
+				for n := 0; n < 2*len(x)+4; n++ {
+					if err := l.NextToken(); err != nil {
+						if _, ok := err.(*memefish.Error); !ok {
+							panic(fmt.Sprintf("lexer error of type %T", err))
+						}
+						break
+					}
+					if l.Token.Kind == token.TokenEOF {
+						break
+					}
+					if n == 2*len(x)+3 {
+						panic("lexer does not reach <eof>")
+					}
+				}
+				if _, err := memefish.SplitRawStatements("t.sql", x); err != nil {
+					if _, ok := err.(*memefish.Error); !ok {
+						panic(fmt.Sprintf("splitter error of type %T", err))
+					}
+				}
+			})
+			done <- w
+		}()
+		select {
+		case why = <-done:
+		case <-time.After(3 * time.Second):
+			return "timeout", "lexer/splitter: no result after 3s", false
+		}
+		if why != "" {
+			return "panic", why, false
 		}
 		return "", "", false
 	}
